@@ -1,6 +1,5 @@
 from __future__ import annotations
 
-from copy import deepcopy
 from datetime import datetime, timedelta
 from typing import List, Optional, Set
 
@@ -101,7 +100,7 @@ class CandleManager:
         if self.name == DEFAULT_CANDLES:
             self.candles.extend(candles_)
         else:
-            self.candles.extend(deepcopy(candles_))
+            self.candles.extend(candle.raw_copy() for candle in candles_)
 
         self._tasks()
 
